@@ -43,16 +43,17 @@ theorem forEach_rel_P {α : Type} (R : St → St → Prop) (hrefl : ∀ s, R s s
 /-! ## track -/
 
 theorem trackFile_from (c : Cfg) (o : TrackOpts) (s : St) (p : Path) (b : Bytes) (stamp : Nat)
-    (hb : ∀ b' w st l, s.ws p = some (.file b' w st l) → b' = b) :
+    (hb : ∀ b' n, s.readThrough p = some (b', n) → b' = b) :
     CacheFrom s (s.trackFile c o p b stamp).1 := by
   have key : ∀ (s1 : St) (m : Method) (f : Bool), s1.ws = s.ws → s1.cache = s.cache →
       CacheFrom s (s1.carryOne p (addrOf p (digestOf c.algo (o.tob.getD c.tob) b)) m f).1 := by
     intro s1 m f hws hc
     apply (cacheFrom_of_eq hc).trans
     apply carryOne_from
-    intro b' w st l hw
-    rw [hws] at hw
-    rw [hb b' w st l hw]
+    intro b' n hr
+    have hrt : s1.readThrough p = s.readThrough p := by unfold St.readThrough; rw [hws, hc]
+    rw [hrt] at hr
+    rw [hb b' n hr]
     exact hashOf_digestOf _ _ _
   unfold St.trackFile
   simp only
@@ -73,7 +74,7 @@ theorem trackOne_from (c : Cfg) (o : TrackOpts) (s : St) (p : Path) : CacheFrom 
   split
   · exact CacheFrom.refl s
   · rename_i b stamp hr
-    exact trackFile_from c o s p b stamp (fun b' w st l hw => read_file_eq hr hw)
+    exact trackFile_from c o s p b stamp (fun b' n hr' => by rw [hr] at hr'; simp at hr'; exact hr'.1.symm)
 
 theorem trackFile_keep (c : Cfg) (o : TrackOpts) (hf : o.force = false) (s : St) (p : Path) (b : Bytes)
     (stamp : Nat) : CacheKeep s (s.trackFile c o p b stamp).1 := by
@@ -202,22 +203,23 @@ theorem carryInRec_from (c : Cfg) (tob : Option Tob) (force : Bool) (s : St) (p 
       rw [hpath] at hr
       apply CacheFrom.trans (s' := (s.carryOne p (addrOf p a) r.method force).1) _ (cacheFrom_of_eq rfl)
       apply carryOne_from
-      intro b' w st l hw
-      have := read_file_eq hr hw
-      subst this; subst ha
+      intro b' n' hr'
+      rw [hr] at hr'; simp at hr'
+      obtain ⟨rfl, _⟩ := hr'
+      subst ha
       exact hashOf_digestOf _ _ _
     · -- same, stored digest
       rename_i d hdd hcur
       apply CacheFrom.trans (s' := (s.carryOne p (addrOf p d) r.method force).1) _ (cacheFrom_of_eq rfl)
       apply carryOne_from
-      intro b' w st l hw
+      intro b' n' hr'
       rcases carryDiff_same hdd with hn | ⟨b, n, hr, hor⟩
-      · rw [hpath] at hn; simp [St.readThrough, hw] at hn
+      · rw [hpath] at hn; rw [hn] at hr'; cases hr'
       · rw [hpath] at hr
-        have := read_file_eq hr hw
-        subst this
+        rw [hr] at hr'; simp at hr'
+        obtain ⟨rfl, rfl⟩ := hr'
         rcases hor with hm | hc
-        · exact hs b' n d hr hm hcur
+        · exact hs b n d hr hm hcur
         · rw [hcur] at hc; cases hc; exact hashOf_digestOf _ _ _
     · exact CacheFrom.refl s
 
